@@ -21,7 +21,7 @@ namespace QM.C17
 open QM QM.C18
 
 section core
-variable {K : Type} [Add K] [Mul K] [Neg K] [Sub K] [Zero K] [One K] [HasConj K] {m n d : Nat}
+variable {K : Type} [Add K] [Mul K] [Neg K] [Sub K] [Zero K] [One K] [Div K] [NatCast K] [HasConj K] [HasI K] {m n d : Nat}
 
 /-- squared Frobenius norm `Σ conj(a)·a` (a scalar with vanishing imaginary part) -/
 def frob2 (A : Mat K m n) : K := fsum m fun i => fsum n fun j => conj (A.get i j) * A.get i j
@@ -41,6 +41,27 @@ def sumResid (Ms : List (Mat K n n)) : Mat K n n := (Ms.foldl Mat.add Mat.zero).
 /-- HS matrix of `ρ ↦ UρUᴴ` in the basis `B`: `hs[a,b] = tr(B_aᴴ · U B_b Uᴴ)` -/
 def hsOfUnitary (B : Basis K d) (U : Mat K d d) : Mat K (d * d) (d * d) :=
   Mat.ofFn fun a b => trMul (adj (B.get a)) ((U.mul (B.get b)).mul (adj U))
+
+/-! ### alternative descriptions of states and measurement processes (executed through the ops `stateforms`, `hsofkraus`) -/
+
+/-- `calc_mat_from_vector_adjoint(ψ)` = `|ψ⟩⟨ψ|` (`generate_state_density_mat_from_name`) -/
+def pureDensity (psi : Vec K d) : Mat K d d := Mat.ofFn fun i j => psi.get i * conj (psi.get j)
+
+/-- coefficient vector of a matrix in the basis: `vec_a = tr(B_aᴴ ρ)` (`generate_state_density_matrix_vector_from_name`) -/
+def coefVec (B : Basis K d) (rho : Mat K d d) : Vec K (d * d) :=
+  Vec.ofFn fun a => trMul (adj (B.get a)) rho
+
+/-- the matrix of a coefficient vector: `Σ_a v_a B_a` (`State.to_density_matrix`) -/
+def densityOfCoef (B : Basis K d) (v : Vec K (d * d)) : Mat K d d :=
+  msum (d * d) fun a => (B.get a).smul (v.get a)
+
+/-- `tmp_hs += np.kron(kraus_matrix, kraus_matrix.conjugate())` over the Kraus operators of one outcome -/
+def krausSum (ks : List (Mat K d d)) : Mat K (d * d) (d * d) :=
+  ks.foldl (fun acc k => acc.add (kron k (conjM k))) Mat.zero
+
+/-- one element of `generate_mprocess_hss_from_name` before `truncate_hs`: `convert_hs(Σ_k K ⊗ K̄, comp_basis, basis)` -/
+def hsOfKraus (B : Basis K d) (ks : List (Mat K d d)) : Mat K (d * d) (d * d) :=
+  toHerm B (krausSum ks)
 end core
 
 /-! ## deciders -/
@@ -112,6 +133,19 @@ def handle (args : List String) : Option String :=
       let U ← parseCMat U d d
       let hs ← parseRMat hs (d * d) (d * d)
       some s!"ok {hsUnitaryCert B U hs (← parseRat? eps)} {showRat (frob2 ((embed hs).sub (hsOfUnitary B U))).re}"
+  | ["stateforms", ds, bs, psi] => do
+      -- pure-state vector -> density matrix -> coefficient vector (and back)
+      let d ← parseNat? ds
+      let B ← parseBasis bs d
+      let psi ← parseCVec psi d
+      let rho := pureDensity psi
+      let v := coefVec B rho
+      some s!"ok {showCMat rho} {showList showRat (v.toList.flatMap fun z => [z.re, z.im])} {showCMat (densityOfCoef B v)}"
+  | ["hsofkraus", ds, bs, ks] => do
+      let d ← parseNat? ds
+      let B ← parseBasis bs d
+      let ks ← parseCMats ks d
+      some s!"ok {showCMat (hsOfKraus B ks)}"
   | ["names", t] =>
       -- a generated catalogue name table (QGen/C17.lean, regenerated from the source on every run)
       (QGen.C17.table t).map fun l => s!"ok {showList id l}"
